@@ -39,8 +39,22 @@ func (r *Ref) expandNodes(nodes []*ymodel.Node, s Scope, c ectx, into map[string
 			cc := c
 			cc.steps++
 			cc.viaUses = true
-			r.expandNodes(g.Nodes, gs.Push(&g.Body), cc, into, parentKind)
+			placed := map[string]*XNode{}
+			r.expandNodes(g.Nodes, gs.Push(&g.Body), cc, placed, parentKind)
 			delete(r.usesAct, g)
+			for k, x := range placed {
+				// the conditions on the uses statement reach the nodes it places
+				real := x
+				if x.Implicit && x.Children[x.Name] != nil {
+					real = x.Children[x.Name]
+				}
+				real.IfFeatures = append(real.IfFeatures[:len(real.IfFeatures):len(real.IfFeatures)], n.IfFeatures...)
+				if into[k] != nil {
+					r.problem("duplicate node %s", k)
+					continue
+				}
+				into[k] = x
+			}
 		default:
 			x := r.expandNode(n, s, c)
 			if x == nil {
@@ -70,7 +84,7 @@ func parseU(s string, def uint64) uint64 {
 }
 
 func (r *Ref) expandNode(n *ymodel.Node, s Scope, c ectx) *XNode {
-	x := &XNode{Name: n.Name, Kind: n.Kind, NS: c.ns, Config: n.Config, Mandatory: n.Mandatory, CopySteps: c.steps, Src: s.Mod.Name, ViaUses: c.viaUses, ViaAug: c.viaAug}
+	x := &XNode{Name: n.Name, Kind: n.Kind, NS: c.ns, Config: n.Config, Mandatory: n.Mandatory, CopySteps: c.steps, Src: s.Mod.Name, ViaUses: c.viaUses, ViaAug: c.viaAug, IfFeatures: append([]string(nil), n.IfFeatures...)}
 	inner := s.Push(&n.Body)
 	switch n.Kind {
 	case ymodel.KLeaf, ymodel.KLeafList:
@@ -270,6 +284,12 @@ func (r *Ref) graftOne(trees map[string]*Tree, p pendingAug) bool {
 			continue
 		}
 		bump(add[k])
+		// the conditions on the augment statement reach the nodes it places
+		real := add[k]
+		if real.Implicit && real.Children[real.Name] != nil {
+			real = real.Children[real.Name]
+		}
+		real.IfFeatures = append(real.IfFeatures[:len(real.IfFeatures):len(real.IfFeatures)], p.aug.IfFeatures...)
 		target.Children[k] = add[k]
 	}
 	return true
